@@ -58,6 +58,11 @@ UF == << Fe("F1", <<"a">>, <<"run">>, <<Sc("S1", <<"b">>, <<"run">>), Sc("S2", <
               Ru("R2", <<>>, <<>>, <<Sc("S5", <<"c", "b">>, <<"run">>)>>)>>),
          Fe("F2", <<>>, <<>>, <<Sc("S6", <<"a">>, <<"run">>), Sc("S7", <<>>, <<"run">>)>>, <<>>) >>
 
+\* the same universes without a source path (C14: path-less features)
+NoPath(V) == [i \in DOMAIN V |-> [V[i] EXCEPT !.path = FALSE]]
+US1np == NoPath(US1)
+US2np == NoPath(US2)
+
 Fails1 == [s \in {"S1", "S2", "S3"} |-> 1]   \* every retried scenario fails once
 Fails0 == [s \in {"S1", "S2", "S3"} |-> 0]
 FailsAll == [s \in {"S1", "S2", "S3"} |-> 5]
